@@ -366,7 +366,7 @@ example : Gen.Bernoulli.ln_f_bool (⟨fin 0⟩ : Gen.Bernoulli X) true ≠ nan :
 
 -- @site Bernoulli.ln_f_nat
 /-- integer kinds — **model only**: the model maps `into_bool` to `x == 1`; the Rust code panics for `x ∉ {0,1}`
-    (`Bernoulli.ln_f_nat u8 p=0.5 2 ↦ PANIC`), see `Bernoulli_f_unsupported_nat_counterexample` in C02A; `pmf`/`ln_pmf` no longer panic. -/
+    (`Bernoulli.ln_f_nat u8 p=0.5 2 ↦ PANIC`), see `Bernoulli_f_unsupported_nat_counterexample` in C02A; `pmf`/`ln_pmf` panic as well (documented). -/
 theorem Bernoulli_ln_f_total_nat (p : ℝ) (hp0 : 0 ≤ p) (hp1 : p ≤ 1) (x : Nat) :
     IsFinOrNinf (Gen.Bernoulli.ln_f_nat (⟨fin p⟩ : Gen.Bernoulli X) x) :=
   Bernoulli_ln_f_total_bool p hp0 hp1 (x == 1)
